@@ -412,6 +412,12 @@ func ruleWire(c *Ctx) {
 					continue
 				}
 			}
+			if ws.pkg == "chord" && ws.fn == "Builder.Build" && nf.label == "attrs" && !hasFact(facts, nf.has...) {
+				if p, n, ok := c.chordPipelineVerdict(); ok && p == "" {
+					c.ok(key, c.pos(fn.Pos()), fname(fn), fmt.Sprintf("decided by APPLY play.Key.Apply|pipeline: %d chords folded through the builder, every attribute found under its name", n))
+					continue
+				}
+			}
 			if ws.pkg == "cmd" && ws.fn == "readFileOrStdinFromArgs" {
 				if problem, n, ok := c.readArgsByFolding(); ok {
 					c.check(problem == "", key, c.pos(fn.Pos()), fname(fn), fmt.Sprintf("%d argument lists folded: a FILE is opened under exactly the name given and handed to the reader, `-`, an empty name and no argument read standard input", n), fname(fn)+": "+problem)
